@@ -27,7 +27,7 @@ def run(tier, seed, t0):
     res = run_parallel(c18_m.jobs(tier, seed), nproc=14)
     res += kani.run_harnesses("C18", specs(tier), per_timeout=600)
     return finish("C18", tier, seed, "model_checking", res, t0,
-                  assumptions=["keystream words are arbitrary (ZUC correctness is C08); Kani: symbolic message up to 96 bits and the length arithmetic for all 32-bit LENGTH; engine M: EEA3 with a symbolic message at the listed LENGTHs up to 4096 bits (65537 thorough), EIA3 with symbolic keystream and structured concrete messages at the listed LENGTHs (the per-bit branch is not merged by engine M)",
+                  assumptions=["keystream words are arbitrary (ZUC correctness is C08); Kani: symbolic message up to 96 bits and the length arithmetic for all 32-bit LENGTH; engine M: EEA3 with a symbolic message at the listed LENGTHs up to 4096 bits (65537 thorough), EIA3 with symbolic message and keystream at the listed LENGTHs up to 257 bits (1024 thorough; the per-bit branch is merged into an if-then-else) and with structured concrete messages at larger LENGTHs",
                                "involution of EEA3 and bit-exact dependence of EIA3 follow from equality with the specification formulas (which read only the first LENGTH bits)"],
                   explanation="Kani/CBMC on the real EEA/EIA code: IV layout for all parameter values, word counts for all LENGTH, output words / MAC against the 3GPP formulas at each listed LENGTH; engine M (MIR -> z3) repeats IV layout and the formulas at much larger LENGTHs.",
                   rule="IV layout x2 (both engines), request count x2, one obligation per (function, LENGTH, engine)")
